@@ -1,5 +1,5 @@
 (* C01 Dispatch: a route is chosen iff one admits the path, by the documented priority. *)
-Require Import Base Regex RegexProofs Route Tree TreeProofs TreeWf TreeAdd TreeComplete TreeDispatch Router RouterProofs RouteSpec Parser GoodParsed.
+Require Import Base Regex RegexProofs Route Tree TreeProofs TreeWf TreeAdd TreeComplete TreeDispatch Router RouterProofs RouteSpec Parser GoodParsed TreeKeys TreeLive TreePriority TreeOrdered TreeCands TreePriorityTop.
 
 (* Proved (soundness half of "iff", for every tree whatsoever, every path, every header predicate):
    whatever the matcher returns is a registered root-to-leaf path of the tree that admits the
@@ -72,11 +72,71 @@ Theorem C01_registration_invariant : forall compile (good : list elem -> Prop),
             forall p, In p (paths t') <-> In p (paths t) \/ In p (with_rid rid l).
 Proof. intros compile good G0 Inj. exact (add_segs_ok compile good G0 Inj). Qed.
 
-(* C01_priority in full - "which of several admitting routes wins" = RouteSpec.spec_winner (flat
-   routes x derivations, least key (fallback, rank, birth, captured) per depth) - is NOT proved yet: it
-   is evaluated on every generated request by the correspondence check (implementation = model =
-   spec_winner).  What IS proved about order: the matcher is a depth-first search of a tree whose
-   children are sorted by rank with stable (registration-order) insertion, the match-all child last. *)
+(* PRIORITY.  [cands hdr_ok t segs []] (TreePriority.v) lists every way the request can be matched by a
+   route whose constraints hold, each with its priority key: one element per tree depth,
+       (fallback, rank, birth, captured)
+   - fallback = 1 only for a match-all that ends a route and takes the whole remainder (>= 2 segments): it
+     comes after every alternative that continues with further segments;
+   - rank: static 1 < regex 2 < placeholder 3 < match-all 4;
+   - birth: the least route id registered below that alternative (for a leaf: the route's own id) - route
+     ids are handed out in registration order ([increasing]), so among equally ranked alternatives the
+     earlier-registered wins ([minrid_least]);
+   - captured: the number of segments a match-all in the middle of a route took - fewest first.
+   Keys are compared lexicographically from the left ([key_le]).
+   For every list of accepted registrations, every path and header predicate:
+   (1) a route has a candidate iff one of its registered forms admits the path and its constraints hold -
+       the candidates are ALL matches of ALL registered routes;
+   (2) the matcher answers with a candidate whose key is least; not-found only when there is none
+       (a failure deeper in a preferred branch falls back to the next alternative). *)
+Theorem C01_priority : forall compile (good : list elem -> Prop),
+  good [] -> (forall a b, good a -> good b -> render_elems a = render_elems b -> a = b) ->
+  forall hdr_ok rs t segs,
+  (forall rid r, In (rid, r) rs -> route_good good r) -> increasing rs ->
+  reg_all compile empty rs = Some t ->
+  (forall rid, (exists k, In (k, rid) (cands hdr_ok t segs [])) <->
+               exists r l ks ps, In (rid, r) rs /\ forms compile r = Some l /\ In ks l /\ adm ks segs ps /\ hdr_ok rid = true) /\
+  match mtree hdr_ok t segs with
+  | Some (rid, _) => exists k, In (k, rid) (cands hdr_ok t segs []) /\
+                               forall c, In c (cands hdr_ok t segs []) -> key_le k (fst c)
+  | None => cands hdr_ok t segs [] = []
+  end.
+Proof. intros compile good G0 Inj. exact (priority_full compile good G0 Inj). Qed.
+
+(* the same for routes returned by the parser: no hypothesis on segments left *)
+Theorem C01_priority_parsed : forall compile hdr_ok rs t segs,
+  (forall rid r, In (rid, r) rs -> exists s, parse s = Some r) -> increasing rs ->
+  reg_all compile empty rs = Some t ->
+  match mtree hdr_ok t segs with
+  | Some (rid, _) => exists k, In (k, rid) (cands hdr_ok t segs []) /\
+                               forall c, In c (cands hdr_ok t segs []) -> key_le k (fst c)
+  | None => forall rid, ~ exists r l ks ps, In (rid, r) rs /\ forms compile r = Some l /\ In ks l /\ adm ks segs ps /\ hdr_ok rid = true
+  end.
+Proof.
+  intros compile hdr_ok rs t segs P Inc H.
+  assert (G : forall rid r, In (rid, r) rs -> route_good pgood r).
+  { intros rid r HIn. destruct (P rid r HIn) as [s Hs]. exact (parsed_good s r Hs). }
+  destruct (priority_full compile pgood pgood_nil pgood_inj hdr_ok rs t segs G Inc H) as [A B].
+  destruct (mtree hdr_ok t segs) as [[rid ps]|]; [exact B|].
+  intros rid X. apply A in X as (k & Hk). rewrite B in Hk. destruct Hk.
+Qed.
+
+(* what "birth" is: the least id among the routes registered below *)
+Theorem C01_birth_is_least_id : forall t, kpaths t <> [] ->
+  In (minrid t) (rids t) /\ forall r, In r (rids t) -> minrid t <= r.
+Proof. exact minrid_spec. Qed.
+
+(* the ordering invariant registration maintains: children sorted by (rank, birth), leaves by (rank, id) *)
+Theorem C01_ordering_invariant : forall compile (good : list elem -> Prop),
+  good [] -> (forall a b, good a -> good b -> render_elems a = render_elems b -> a = b) ->
+  forall fuel root t anc aa segs rid t',
+  wfo compile good anc aa t -> live t -> ordered t -> Forall (fun s => good (elems s)) segs ->
+  (forall p, In p (kpaths t) -> snd p < rid) ->
+  add_segs compile fuel root t anc aa segs rid = Some t' -> ordered t'.
+Proof. intros compile good G0 Inj. exact (add_segs_ordered compile good G0 Inj). Qed.
+
+(* The brute-force reading of the same order over the list of routes (RouteSpec.spec_winner) is a second,
+   independent executable oracle applied to the implementation's answers; its agreement with [cands] is
+   evaluated, not proved. *)
 
 Example C01_example :
   let r1 := [mkseg false [EIdent [97]%N]; mkseg false [EBind [120]%N]] in      (* /a/{x} *)
@@ -90,6 +150,8 @@ Example C01_example :
 Proof. vm_compute. split; reflexivity. Qed.
 
 Redirect "assum/C01.9" Print Assumptions C01_dispatch_iff_parsed.
+Redirect "assum/C01.10" Print Assumptions C01_priority.
+Redirect "assum/C01.11" Print Assumptions C01_priority_parsed.
 Redirect "assum/C01.1" Print Assumptions C01_dispatch_sound.
 Redirect "assum/C01.2" Print Assumptions C01_serve_sound.
 Redirect "assum/C01.3" Print Assumptions C01_regex_exact.
